@@ -6,7 +6,7 @@ import ast
 from ..cfg import cfg_of
 from ..excflow import primitive_sites
 from ..model import AnalysisError, NotConst, dotted, norm, walk_own
-from .common import find_calls, guards_of, key_of
+from .common import cmp_fact, find_calls, guards_of, key_of, str_template, template_text
 
 EXPLANATION = (
     "Static dominance / def-use / table checks of the translation request -> environ: underscore names never reach the "
@@ -139,7 +139,7 @@ def rule_r4(ctx):
         ctx.r.violation(rid, key_of(f, None, "no-client-store"), "client headers are never copied into the environ", f.loc(lp.ast))
     for n in in_loop:
         kv = norm(n.ast.targets[0].slice)
-        ok = any(pol and isinstance(t, ast.Compare) and isinstance(t.ops[0], ast.NotIn) and norm(t.left) == kv and dotted(t.comparators[0]) == "environ" for (t, pol) in guards_of(g, n)) or \
+        ok = any(cmp_fact(t, pol) == ("in", kv, "environ", False) for (t, pol) in guards_of(g, n)) or \
             any((not pol) and isinstance(t, ast.Compare) and isinstance(t.ops[0], ast.In) and norm(t.left) == kv and dotted(t.comparators[0]) == "environ" for (t, pol) in guards_of(g, n))
         if ok:
             ctx.r.ok(rid, "client header stored only if the key is not already defined", f.loc(n.ast))
@@ -283,7 +283,7 @@ def rule_r8(ctx):
     want = {
         "REQUEST_METHOD": ("request.command.upper()", "request.command"),
         "QUERY_STRING": ("request.query",),
-        "SERVER_PROTOCOL": ("'HTTP/%s' % self.version",),
+        "SERVER_PROTOCOL": ("template:HTTP/{self.version}",),
         "wsgi.input": ("request.get_body_stream()",),
         "wsgi.url_scheme": ("request.url_scheme",),
         "PATH_INFO": ("path",),
@@ -295,7 +295,7 @@ def rule_r8(ctx):
     }
     for k, alts in want.items():
         if k in kv:
-            if norm(kv[k]) in alts:
+            if norm(kv[k]) in alts or any(a.startswith("template:") and template_text(str_template(kv[k])) == a[9:] for a in alts):
                 ctx.r.ok(rid, "%s = %s" % (k, norm(kv[k])), f.loc(kv[k]))
             else:
                 ctx.r.violation(rid, key_of(f, None, "binding::" + k), "%s is bound to %s (expected %s)" % (k, norm(kv[k]), alts[0]), f.loc(kv[k]))
